@@ -503,6 +503,72 @@ def straggler_jobs(progs, seed, types, extra_opts=None, every=None):
     return jobs
 
 
+def binding_selftest(prog: dict, ref: dict, rep: Reporter) -> dict:
+    """Demonstrates in every run that the specification is bound to what is recorded: the reference execution of the first
+    program must be accepted, and each copy with ONE corruption must be rejected - a stage status changed in one commit,
+    one commit dropped, the type of one queued message changed, one task execution attributed to another task, one
+    message missing from one state.  Anything else is a machinery failure (the trace check would be vacuous)."""
+    import copy
+
+    from . import tracecheck
+
+    base = ref["trace"]
+    ev = base["events"]
+    commits = [i for i, e in enumerate(ev) if e["e"] == "commit" and e.get("s")]
+    execs = [i for i, e in enumerate(ev) if e["e"] == "exec"]
+    cor = []
+
+    def variant(name, fn):
+        t = copy.deepcopy(base)
+        try:
+            fn(t["events"])
+            cor.append((name, t))
+        except (IndexError, KeyError, StopIteration):
+            pass
+
+    mid = commits[len(commits) // 2]
+
+    def flip_status(es):
+        s = es[mid]["s"]["st"]
+        k = sorted(s)[0]
+        s[k]["status"] = "SUCCEEDED" if s[k]["status"] != "SUCCEEDED" else "RUNNING"
+
+    def drop_commit(es):
+        i = next(i for i in commits[2:] if es[i].get("audit"))     # a commit that changes a status
+        del es[i]
+
+    def retype_message(es):
+        i = next(i for i in commits if es[i]["s"]["q"])
+        m = es[i]["s"]["q"][0]
+        m["typ"] = "CompleteStage" if m["typ"] != "CompleteStage" else "StartStage"
+
+    def wrong_task(es):
+        names = [t["name"] for s in prog["stages"] for t in s["tasks"]]
+        e = es[execs[0]]
+        e["task"] = next(n for n in names if n != e["task"])
+
+    def lose_message(es):
+        i = next(i for i in commits if len(es[i]["s"]["q"]) >= 2)
+        es[i]["s"]["q"].pop()
+
+    variant("status flipped in one commit", flip_status)
+    variant("one status-changing commit dropped", drop_commit)
+    variant("type of one queued message changed", retype_message)
+    variant("one execution attributed to another task", wrong_task)
+    variant("one message missing from one state", lose_message)
+    v = tracecheck.validate(prog, [base] + [t for _, t in cor], check_props=[], extra_program=PR.oracle_tla(ref["oracle"]))
+    res = {"program": prog["name"], "base_accepted": False, "corruptions_rejected": {}}
+    if v.machinery:
+        rep.machinery_failure("binding self-test: " + v.machinery[-600:])
+        return res
+    rejected = {r["trace"] for r in v.rejected}
+    res["base_accepted"] = 0 not in rejected
+    res["corruptions_rejected"] = {name: (i + 1) in rejected for i, (name, _) in enumerate(cor)}
+    if not res["base_accepted"] or not all(res["corruptions_rejected"].values()) or len(cor) < 3:
+        rep.machinery_failure(f"binding self-test failed: {res}")
+    return res
+
+
 # ----- runner ----------------------------------------------------------------------------------------
 def run(pid: str, tier: str, seed: int) -> int:
     t0 = time.time()
@@ -526,6 +592,7 @@ def run(pid: str, tier: str, seed: int) -> int:
         for p in progs:
             traces.setdefault(p["name"], []).insert(0, refs[p["name"]]["trace"])
     t_gen = time.time() - t0
+    selftest = binding_selftest(progs[0], refs[progs[0]["name"]], rep)
     verdicts = ec.validate_all(progs, traces, refs, pl["props"])
     t_val = time.time() - t0 - t_gen
     mc_tasks = []
@@ -632,7 +699,7 @@ def run(pid: str, tier: str, seed: int) -> int:
         "traces_validated_against_impl": acc + (comp["replayed"] if comp else 0),
         "race_component": ({k: comp[k] for k in ("replayed", "configs", "samples")} if comp else None),
         "samples": samples or [{"note": "no traces"}],
-        "traces_recorded": ntr, "events_validated": events, "programs": len(progs),
+        "traces_recorded": ntr, "events_validated": events, "programs": len(progs), "binding_selftest": selftest,
         "formulas": pl["props"], "model_checking_runs": mcinfo,
         "known_findings_seen": rep.known_hits, "model_counterexamples_replayed_on_code": confirmed,
         "exhaustive": False,
